@@ -242,13 +242,6 @@ func (sc *c17Scenario) caller() int {
 	return th.id
 }
 
-func c17ModelNum(num base.ClientNumber) int {
-	if int(num) >= c17OOBBase {
-		return -1
-	}
-	return int(num)
-}
-
 func (g *c17Orch) NewSink(addr string, num base.ClientNumber) base.BufferReceiverSink {
 	sc := g.sc
 	if sc == nil {
